@@ -81,7 +81,16 @@ def book_rules(repo, res, rule="BOOK"):
     res.check(ok, rule, f"{rule}:{fq}:unused_specializations", "filter(!spec.used) over the target-shell specialisation map" if ok else A.show(us)[:200], loc)
     # computed after both specialize calls
     spec_calls = list(P.find_calls(fn.body, names={"specialize_nonterminals"}))
-    flt_nodes = [n for n in P.find_calls(fn.body, methods={"filter"})]
+    # the filter that computes the set (the one whose closure tests `!spec.used`), wherever other filters stand
+    flt_nodes = []
+    for n in P.find_calls(fn.body, methods={"filter"}):
+        for a in n["args"]:
+            if a["k"] == "Closure":
+                b = a["body"]
+                while b["k"] == "Block" and len(b["stmts"]) == 1 and b["stmts"][0]["k"] == "ExprStmt":
+                    b = b["stmts"][0]["expr"]
+                if b["k"] == "Unary" and b["op"] == "!" and b["expr"]["k"] == "Field" and b["expr"]["member"] == "used":
+                    flt_nodes.append(n)
     ok = bool(flt_nodes) and all(A.before(c, flt_nodes[0]) for c in spec_calls)
     res.check(ok, rule, f"{rule}:{fq}:unused_specializations:after-specialize", "computed after the expression and every definition were specialised", loc)
     # undefined = get_nonterm_refs(final expression)
